@@ -21,8 +21,10 @@ Clauses(ev) ==
   [OneRecordPerIterationInOrder       |-> ev.rec.n = k + 1,
    StepIsCumulativeStepsOverAllEnvs   |-> ev.rec.step = SumF(ev.stats, "step", NE),
    StepsStrictlyIncrease              |-> ev.rec.step > laststep,
-   LoggedReturnIsMeanOverEnvs         |-> Abs(ev.rec.retN - SumF(ev.stats, "avgR", NE)) <= 1,
-   LoggedLengthIsMeanOverEnvs         |-> Abs(ev.rec.lenN - SumF(ev.stats, "avgL", NE)) <= 1,
+   \* the logged mean is a float32: N * SD * mean is the exact sum up to a few units in the last place of the sum
+   \* (2^-21 relative; a wrong aggregate - max, one environment only, a sum - is off by whole multiples of SD)
+   LoggedReturnIsMeanOverEnvs         |-> Abs(ev.rec.retN - SumF(ev.stats, "avgR", NE)) <= 1 + Abs(SumF(ev.stats, "avgR", NE)) \div 2097152,
+   LoggedLengthIsMeanOverEnvs         |-> Abs(ev.rec.lenN - SumF(ev.stats, "avgL", NE)) <= 1 + Abs(SumF(ev.stats, "avgL", NE)) \div 2097152,
    EveryBackendGetsEveryRecord        |-> \A i \in 1..Len(ev.rec.others) :
                                             ev.rec.others[i] = <<ev.rec.n, ev.rec.step, ev.rec.retN, ev.rec.lenN>>]
 Failed(ev) == LET c == Clauses(ev) IN {n \in DOMAIN c : ~c[n]}
